@@ -1,4 +1,4 @@
-From V Require Import model.Base model.RingQueue model.Obs model.Vec model.Str model.SlotMap model.FlatMap.
+From V Require Import model.Base model.RingQueue model.Obs model.Vec model.Str model.SlotMap model.FlatMap model.RelocOption.
 Require Extraction.
 Require Import ExtrOcamlBasic.
 Extraction Language OCaml.
@@ -6,4 +6,5 @@ Extraction "../ocaml/c16/model.ml" rq_new rq_step sq_new sq_step N.of_nat N.to_n
   sortN vec_new vec_step svec_new svec_step
   str_new str_step sstr_new sstr_step sstr_of_str
   sm_new sm_step smap_new smap_step
-  fm_step fmap_new fmap_step.
+  fm_step fmap_new fmap_step
+  ro_step so_step.
